@@ -424,7 +424,9 @@ def query_ops(rng, net, heavy=True):
 
 
 def search_ops(rng, net):
-    pat = rng.choice(["hello", "NEWS", "a", "x.z", "[0-9]+", "zvbi|sport", "nomatchxyzzy", "W.*r", "\\d\\d:", "(", "a{2}", ""])
+    pat = rng.choice(["hello", "NEWS", "a", "x.z", "[0-9]+", "zvbi|sport", "nomatchxyzzy", "W.*r", "\\d\\d:", "(", "a{2}", "",
+                      "|a", "(|)", "()a", "(*)", "[a", "[^", "\\p31", "\\p1,2", "[\\p33]", "a|", "((a)", "a)", "\\", "[a-", "^$", "$^",
+                      "a**", "+", "?", "".join(rng.choice("ab|()[]*+?.\\^$-p1,") for _ in range(rng.randrange(1, 9)))])
     ucs = "".join("%04x" % ord(c) for c in pat) or "-"
     ops = ["search %x %x %d %d %s" % (net.any_pgno() if rng.random() < 0.8 else 0x100, rng.choice([0x3F7F, 0, 1]),
                                       rng.randrange(2), rng.randrange(2), ucs)]
